@@ -1,6 +1,7 @@
 #!/bin/bash
 # Confirm a sub-agent's seeded defect and run our checks against it.
 V="$(cd "$(dirname "$0")/.." && pwd)"
+REPO="${REPO:-/repo}"; mkdir -p "$V/.build"
 # usage: tools/seedcheck.sh <seed-id> <worktree> <check ids...>
 # 1. in the scratch worktree: existing suite passes with the change, demo fails with / passes without
 # 2. apply to /repo, run the quick checks named, undo.
@@ -21,8 +22,8 @@ echo "demo WITHOUT change: $without"
 echo "demo WITH change:    $with"
 echo "suite WITH change:   $suite"
 unset RUSTFLAGS; cd /verif
-if [ -n "$(git -C /repo status --porcelain --untracked-files=no)" ]; then echo "/repo is dirty"; exit 2; fi
-git -C /repo apply $out/patch.diff || { echo "patch does not apply to /repo"; exit 2; }
+if [ -n "$(git -C "$REPO" status --porcelain --untracked-files=no)" ]; then echo "$REPO is dirty"; exit 2; fi
+git -C "$REPO" apply $out/patch.diff || { echo "patch does not apply to $REPO"; exit 2; }
 res=""
 for p in "$@"; do
   ./check $p --tier quick > $V/.build/seed-$id-$p.log 2>&1; code=$?
@@ -30,5 +31,5 @@ for p in "$@"; do
   echo "check $p exit=$code $rule"
   res="$res $p:$code"
 done
-git -C /repo checkout -- .
+git -C "$REPO" checkout -- .
 echo "RESULT $id $res"
